@@ -549,7 +549,8 @@ ARCH = {
     'microblaze': ('c', ['int', 'char'], ['*', '^'], 4, 2),
     'mips': ('c', ['int'], ['*', '^'], 4, 1),
     'xtensa': ('c', ['int'], ['*'], 4, 1),
-    'm68k': ('c', ['int'], [], 4, 1),
+    # m68k is not exercised: its selector rejects almost every generated program and the allocator
+    # occasionally does not terminate on the rest (termination is outside C06)
 }
 QUICK_TARGETS = ['x86_64', 'arm', 'riscv', 'msp430', 'avr', 'arm:thumb', 'or1k', 'microblaze']
 THOROUGH_TARGETS = list(ARCH)
@@ -691,10 +692,26 @@ class Gen:
         return src
 
 
+PROGRAM_TIMEOUT_S = 25     # a compile that takes longer is abandoned (termination is not C06's claim)
+
+
 def compile_program(march, lang, src, opt):
     from ppci import api
     import logging
+    import signal
+
+    class _Timeout(Exception):
+        pass
+
+    def _alarm(signum, frame):
+        raise _Timeout('compile exceeded %d s' % PROGRAM_TIMEOUT_S)
     logging.disable(logging.CRITICAL)
+    old = None
+    try:
+        old = signal.signal(signal.SIGALRM, _alarm)
+        signal.setitimer(signal.ITIMER_REAL, PROGRAM_TIMEOUT_S)
+    except (ValueError, AttributeError):   # not in the main thread
+        old = None
     try:
         if lang == 'c':
             api.cc(io.StringIO(src), march, opt_level=opt)
@@ -704,6 +721,9 @@ def compile_program(march, lang, src, opt):
     except Exception as ex:   # noqa: BLE001  (front end / selector limitations of a target are not C06's business)
         return '%s: %s' % (type(ex).__name__, str(ex)[:80])
     finally:
+        if old is not None:
+            signal.setitimer(signal.ITIMER_REAL, 0)
+            signal.signal(signal.SIGALRM, old)
         logging.disable(logging.NOTSET)
         # the allocator memoises q()/common_reg_class() with lru_cache on methods, which keeps every
         # allocator (and its last frame and interference graph) alive: drop those caches between programs
@@ -809,7 +829,10 @@ def collect_frames(ctx, cap, budget_frames, targets):
         g = Gen(rng, march)
         n0 = len(cap.frames)
         attempts = 0
-        while len(cap.frames) - n0 < want and attempts < want * 3 + 6:
+        t_target = time.time()
+        t_budget = max(20.0, (90.0 if ctx.quick() else 700.0) * weights[march] / tot * 1.5)
+        while (len(cap.frames) - n0 < want and attempts < want * 3 + 6
+               and time.time() - t_target < t_budget):
             attempts += 1
             if attempts % 8 == 0:
                 import gc
